@@ -11,7 +11,7 @@ TOK = re.compile(r"""
   | (?P<num>\d+)
   | (?P<str>"(?:[^"\\]|\\.)*")
   | (?P<op><==>|==>|\|\||&&|==|!=|<=|>=|::|[-+*/%<>!?:(),.\[\]{}_]|\$)
-  | (?P<id>[A-Za-z_][A-Za-z_0-9]*)
+  | (?P<id>[A-Za-z_][A-Za-z_0-9]*(?:\$\d+)*)
   | (?P<star>\*)
 """, re.X)
 
